@@ -4,11 +4,12 @@ import math
 
 from harness.core import pool, tb
 
-PROOF_MODULE = ["OdeVerif.Proofs.C12", "OdeVerif.Proofs.RefineIntegrator"]
-GENERATED = ['PyIntegrator']
+PROOF_MODULE = ["OdeVerif.Proofs.C12", "OdeVerif.Proofs.RefineIntegrator", "OdeVerif.Proofs.RefineUpdateStep"]
+GENERATED = ['PyIntegrator', "PyUpdateStep"]
 THEOREMS = ["OdeVerif.C12.setSpikeTimes_sorted", "OdeVerif.C12.setSpikeTimes_grouped", "OdeVerif.C12.getValue_history_independent",
             "OdeVerif.C12.spec_zero", "OdeVerif.C12.spec_flow", "OdeVerif.C12.spec_jump",
-            "OdeVerif.Refine.getValue_refines", "OdeVerif.Refine.mergeSpikes_refines", "OdeVerif.Refine.setSpikeTimes_refines"]
+            "OdeVerif.Refine.getValue_refines", "OdeVerif.Refine.mergeSpikes_refines", "OdeVerif.Refine.setSpikeTimes_refines",
+            "OdeVerif.Refine.updateStep_lookup", "OdeVerif.Refine.updateStep_order_invariant"]
 LEVEL = "proof"
 
 # analytic solver dictionaries used by the recorder runs (hand-written: the recorder never evaluates them)
@@ -168,6 +169,15 @@ def case_numeric(case):
     indict = case["indict"]
     res = odetoolbox.analysis(json.loads(json.dumps(indict)), disable_stiffness_check=True)
     sol = [s for s in res if s["solver"] == "analytical"][0]
+    # the same dictionary (==) with another iteration order of its inner dictionaries, as after json.dumps(sort_keys=True) / a merge
+    order = case.get("dict_order", "asis")
+    if order != "asis":
+        def re_key(d):
+            ks = sorted(d) if order == "sorted" else list(reversed(list(d)))
+            return {k: d[k] for k in ks}
+        sol2 = {k: (re_key(v) if isinstance(v, dict) else v) for k, v in sol.items()}
+        assert sol2 == sol
+        sol = sol2
     marker = indict.get("options", {}).get("differential_order_symbol", "__d")
     svars = sol["state_variables"]
     out = {"vars": svars, "queries": []}
@@ -261,7 +271,7 @@ def run(ctx, driver):
         svars = {"I": ["I", "I" + indict.get("options", {}).get("differential_order_symbol", "__d")], "x": ["x", "y"], "u": ["u", "v"], "z": ["z"]}[indict["dynamics"][0]["expression"][0]]
         m = dict(zip(["I", "I__d"], svars + svars))
         h["spike_times"] = {m[k]: v for k, v in h["spike_times"].items()}
-        cases.append({"indict": indict, "history": h})
+        cases.append({"indict": indict, "history": h, "dict_order": ["reversed", "asis", "sorted"][(i + i // len(NUMERIC_SYSTEMS)) % 3]})
     results = pool.run_cases("harness.props.c12", "case_numeric", cases, timeout=120, init="_init_worker", deadline=ctx.deadline())
     for case, res in zip(cases, results):
         ctx.evaluations += 1
@@ -276,6 +286,7 @@ def run(ctx, driver):
             ctx.fail("dictionary-not-integrable", case, {"error": res["construct_error"], "signature": {"site": "AnalyticIntegrator.__init__", "custom_timestep_symbol": "output_timestep_symbol" in (res.get("options") or {})}})
             continue
         ctx.count("numeric_cases")
+        ctx.count("dict_order:" + case.get("dict_order", "asis"))
         ctx.note_nontrivial(json.dumps(case, sort_keys=True))
         for q in res["queries"]:
             ctx.count("numeric_queries")
